@@ -1,6 +1,376 @@
 #!/usr/bin/env python3
-import sys
-if __name__=="__main__":
-    if len(sys.argv)>1 and sys.argv[1]=="setup":
-        print("setup ok"); sys.exit(0)
+"""Check driver: extract (cxx2c) -> weave contracts -> goto-cc -> goto-instrument --dfcc -> cbmc
+(parallel, timeout + ulimit) -> parse -> (replay) -> evidence -> exit code.
+
+exit 0: every obligation of the property discharged (or only KNOWN-FINDINGs)
+exit 1: VIOLATION line(s) printed
+exit 2: undecided (extraction failure, shape mismatch, tool error, timeout, bound too small)"""
+import sys, os, re, json, time, hashlib, subprocess, shutil, glob, importlib, traceback
+from concurrent.futures import ThreadPoolExecutor
+
+ROOT = os.path.dirname(os.path.abspath(__file__))
+sys.path.insert(0, os.path.join(ROOT, 'cxx2c'))
+sys.path.insert(0, ROOT)
+from astidx import Cxx2cError, Index, load_json_stream, dump_tu
+from build import Unit, parse_spec
+
+REPO = os.environ.get('OVM_REPO', '/repo')
+BUILD = os.path.join(ROOT, 'build')
+CBMC_FLAGS = ['--no-malloc-may-fail', '--bounds-check', '--pointer-check', '--pointer-overflow-check',
+              '--signed-overflow-check', '--div-by-zero-check']
+NPROC = int(os.environ.get('VERIF_JOBS', '16'))
+
+class Ob:
+    """one CBMC run = one obligation family (many CBMC properties)"""
+    def __init__(self, id, props, tu, roots, harness, entry='harness', spec=None, enforce=None, replace=(),
+                 tier='U', unwind=None, unwindset=None, defines=None, cfg='kernel', timeout=300, quick=True,
+                 covers=0, expect_loops=(), note='', flags=(), bounds=None, loop_contracts=True, object_bits=None,
+                 expected_fail=(), kissat=False, spec_text=''):
+        self.id = id; self.props = props; self.tu = tu; self.roots = roots; self.harness = harness; self.entry = entry
+        self.spec = spec; self.enforce = enforce; self.replace = list(replace); self.tier = tier
+        self.unwind = unwind; self.unwindset = unwindset; self.defines = defines or {}; self.cfg = cfg
+        self.timeout = timeout; self.quick = quick; self.covers = covers; self.expect_loops = expect_loops
+        self.note = note; self.flags = list(flags); self.bounds = bounds or {}; self.loop_contracts = loop_contracts
+        self.object_bits = object_bits; self.expected_fail = expected_fail; self.kissat = kissat; self.spec_text = spec_text
+
+# ---------------------------------------------------------------------------------------------- AST cache
+TUS = {'kernel': 'tu/kernel.cc', 'tethex': 'tu/tethex.cc', 'ovmb': 'tu/ovmb.cc', 'vector': 'tu/vector.cc'}
+_index_cache = {}
+
+def src_hash():
+    h = hashlib.sha256()
+    for root, dirs, files in sorted(os.walk(os.path.join(REPO, 'src'))):
+        dirs.sort()
+        for f in sorted(files):
+            p = os.path.join(root, f)
+            h.update(p.encode()); h.update(open(p, 'rb').read())
+    for f in sorted(glob.glob(os.path.join(ROOT, 'tu', '*'))):
+        h.update(open(f, 'rb').read())
+    return h.hexdigest()[:20]
+
+def ensure_inc():
+    """generated Config headers: use /repo/_build/src if present, else write stand-ins"""
+    gen = os.path.join(REPO, '_build', 'src', 'OpenVolumeMesh', 'Config')
+    inc = os.path.join(BUILD, 'inc', 'OpenVolumeMesh', 'Config')
+    os.makedirs(inc, exist_ok=True)
+    if os.path.isdir(gen):
+        for f in os.listdir(gen):
+            shutil.copy(os.path.join(gen, f), os.path.join(inc, f))
+    else:
+        open(os.path.join(inc, 'Export.hh'), 'w').write('#pragma once\n#define OVM_EXPORT\n#define OVM_NO_EXPORT\n#define OVM_DEPRECATED\n')
+        open(os.path.join(inc, 'Version.hh'), 'w').write('#pragma once\n#define OVM_VERSION_MAJOR 3\n#define OVM_VERSION_MINOR 3\n#define OVM_VERSION_PATCH 0\n')
+        open(os.path.join(inc, 'DeprecationConfig.hh'), 'w').write('#pragma once\n')
+
+def get_index(tu):
+    if tu in _index_cache: return _index_cache[tu]
+    os.makedirs(os.path.join(BUILD, 'ast'), exist_ok=True)
+    ensure_inc()
+    sh = src_hash()
+    out = os.path.join(BUILD, 'ast', '%s.%s.json' % (tu, sh))
+    if not os.path.exists(out):
+        for old in glob.glob(os.path.join(BUILD, 'ast', tu + '.*.json')): os.remove(old)
+        dump_tu(os.path.join(ROOT, TUS[tu]), out + '.tmp', extra_flags=['-I' + os.path.join(BUILD, 'inc')])
+        os.rename(out + '.tmp', out)
+    ix = Index(load_json_stream(out))
+    _index_cache[tu] = ix
+    return ix
+
+# ---------------------------------------------------------------------------------------------- configs
+RM = 'OpenVolumeMesh::ResourceManager'
+GHOSTS = ['ghost_v', 'ghost_e', 'ghost_he', 'ghost_f', 'ghost_hf', 'ghost_c']
+def cfg_named(name):
+    if name in ('kernel', 'tet', 'hex'):
+        dyn = {'kernel': 'OpenVolumeMesh::TopologyKernel', 'tet': 'OpenVolumeMesh::TetrahedralMeshTopologyKernel',
+               'hex': 'OpenVolumeMesh::HexahedralMeshTopologyKernel'}[name]
+        return dict(dynamic_type=dyn,
+                    drop_fields={RM: ['persistent_props_', 'storage_trackers_']},
+                    extra_fields={RM: [(g, 'std::vector<int>') for g in GHOSTS]},
+                    stubs={RM + '::' + k: 1 for k in ['resize_vprops', 'resize_eprops', 'resize_fprops', 'resize_cprops',
+                           'vertex_deleted', 'edge_deleted', 'face_deleted', 'cell_deleted', 'swap_property_elements',
+                           'copy_property_elements', 'reserve_vprops', 'reserve_eprops', 'reserve_fprops', 'reserve_cprops',
+                           'clear_all_props']})
+    if name == 'plain':
+        return {}
+    raise Cxx2cError('unknown config ' + name)
+
+# ---------------------------------------------------------------------------------------------- one obligation
+def sh(cmd, timeout, log, mem_gb=8, cwd=None):
+    pre = 'ulimit -v %d; ' % (mem_gb * 1024 * 1024)
+    t0 = time.time()
+    try:
+        r = subprocess.run(['bash', '-c', pre + 'exec ' + ' '.join("'%s'" % c.replace("'", "'\\''") for c in cmd)],
+                           stdout=subprocess.PIPE, stderr=subprocess.STDOUT, timeout=timeout, cwd=cwd)
+        out = r.stdout.decode(errors='replace'); rc = r.returncode
+    except subprocess.TimeoutExpired as e:
+        out = (e.stdout or b'').decode(errors='replace') + '\n*** TIMEOUT after %ds\n' % timeout; rc = -9
+    with open(log, 'a') as f:
+        f.write('$ ' + ' '.join(cmd) + '\n' + out + '\n')
+    return rc, out, time.time() - t0
+
+RES_RE = re.compile(r'^\[([^\]]+)\] (?:line (\d+) )?(.*): (SUCCESS|FAILURE|UNKNOWN|ERROR)\s*$', re.M)
+COVER_RE = re.compile(r'^\[([^\]]+)\] (?:file \S+ )?(?:line (\d+) )?(.*): (SATISFIED|FAILED)\s*$', re.M)
+
+def specs_text(names):
+    if not names: return ''
+    if isinstance(names, str): names = [names]
+    return '\n'.join(open(os.path.join(ROOT, 'contracts', n)).read() for n in names)
+
+def run_ob(ob, tier, workdir):
+    """returns result dict"""
+    res = dict(id=ob.id, tier=ob.tier, status='error', reason='', results=[], solver_s=0.0, wall_s=0.0, functions=[],
+               covers=(0, 0), bounds=ob.bounds, note=ob.note, log=None, loops=0, enforce=ob.enforce, replace=ob.replace)
+    t0 = time.time()
+    d = os.path.join(workdir, re.sub(r'[^A-Za-z0-9_.-]', '_', ob.id))
+    shutil.rmtree(d, ignore_errors=True); os.makedirs(d)
+    log = os.path.join(d, 'log.txt'); res['log'] = log
+    try:
+        ix = get_index(ob.tu)
+        contracts = parse_spec(specs_text(ob.spec) + '\n' + ob.spec_text)
+        cfg = cfg_named(ob.cfg)
+        cfg['prelude'] = 'extern int g_k, g_j; extern unsigned long g_u;\n'
+        unit = Unit(ix, contracts=contracts, cfg=cfg)
+        for r in ob.roots:
+            if isinstance(r, str): unit.want(r, all_overloads=True)
+            else: unit.want(r[0], sig=r[1])
+        ctext = unit.generate()
+        # contracts must have been woven: every named function present
+        for cn in ([ob.enforce] if ob.enforce else []) + ob.replace:
+            if cn not in unit.em.func_text: raise Cxx2cError('must-fire: %s not among the extracted functions' % cn)
+            if cn not in contracts: raise Cxx2cError('no contract for %s' % cn)
+        for cn, fn in unit.roots.items():
+            info = unit.em.func_info[cn]
+            res['functions'].append(dict(cxx=info['qual'], c=cn, file=info['loc'], sha=unit.function_sha(cn)))
+        res['n_extracted'] = len(unit.em.func_text)
+        res['ptr_refs'] = sorted(set('%s@%s' % pr for cn, i in unit.em.func_info.items() for pr in i.get('ptr_refs', [])))
+        open(os.path.join(d, 'gen.c'), 'w').write(ctext)
+        hpath = os.path.join(d, 'h.c')
+        defs = ''.join('#define %s %s\n' % kv for kv in ob.defines.items())
+        open(hpath, 'w').write(defs + '#include "gen.c"\nint g_k, g_j; unsigned long g_u;\n#include "%s/spec/common.h"\n' % ROOT + ob.harness + '\n')
+    except Cxx2cError as e:
+        res['status'] = 'undecided'; res['reason'] = 'extraction: ' + str(e)
+        open(log, 'a').write(str(e) + '\n'); res['wall_s'] = time.time() - t0
+        return res
+    except Exception as e:
+        res['status'] = 'undecided'; res['reason'] = 'internal: ' + repr(e) + traceback.format_exc()
+        open(log, 'a').write(res['reason']); res['wall_s'] = time.time() - t0
+        return res
+    rc, out, _ = sh(['goto-cc', '--function', ob.entry, 'h.c', '-o', 'a.gb', '-I', ROOT], 120, log, cwd=d)
+    if rc != 0:
+        res['status'] = 'undecided'; res['reason'] = 'goto-cc failed: ' + out[-800:]; res['wall_s'] = time.time() - t0; return res
+    binp = 'a.gb'
+    if ob.enforce or ob.replace:
+        cmd = ['goto-instrument', '--dfcc', ob.entry]
+        if ob.enforce: cmd += ['--enforce-contract', ob.enforce]
+        for r in ob.replace: cmd += ['--replace-call-with-contract', r]
+        if ob.loop_contracts: cmd += ['--apply-loop-contracts']
+        cmd += ['a.gb', 'b.gb']
+        rc, out, _ = sh(cmd, 300, log, cwd=d)
+        if rc != 0:
+            res['status'] = 'undecided'; res['reason'] = 'goto-instrument failed: ' + out[-800:]; res['wall_s'] = time.time() - t0; return res
+        binp = 'b.gb'
+    cb = ['cbmc', binp] + CBMC_FLAGS + ob.flags
+    if ob.unwind is not None: cb += ['--unwind', str(ob.unwind), '--unwinding-assertions']
+    if ob.unwindset: cb += ['--unwindset', ob.unwindset, '--unwinding-assertions']
+    if ob.object_bits: cb += ['--object-bits', str(ob.object_bits)]
+    if ob.kissat: cb += ['--external-sat-solver', 'kissat']
+    to = ob.timeout if tier == 'quick' else max(ob.timeout, 900)
+    rc, out, dt = sh(cb, to, log, cwd=d, mem_gb=int(os.environ.get('VERIF_MEM_GB', '10')))
+    res['solver_s'] = dt
+    results = [(m.group(1), m.group(3), m.group(4)) for m in RES_RE.finditer(out)]
+    res['results'] = results
+    res['loops'] = len([r for r in results if '.loop_invariant_step' in r[0]])
+    if 'TIMEOUT' in out and rc == -9:
+        res['status'] = 'undecided'; res['reason'] = 'timeout after %ds' % to
+    elif re.search(r'ignoring (forall|exists)', out):
+        res['status'] = 'undecided'; res['reason'] = 'quantifier ignored by back end'
+    elif 'VERIFICATION SUCCESSFUL' in out and results and all(r[2] == 'SUCCESS' for r in results):
+        res['status'] = 'pass'
+    elif 'VERIFICATION FAILED' in out:
+        fails = [r for r in results if r[2] != 'SUCCESS']
+        res['fails'] = fails
+        if any('vstd-capacity' in r[1] or 'unwinding assertion' in r[1] or 'recursion unwinding' in r[1] for r in fails) :
+            res['status'] = 'undecided'; res['reason'] = 'bound too small: ' + '; '.join(r[0] for r in fails[:5])
+        else:
+            res['status'] = 'fail'
+    else:
+        res['status'] = 'undecided'; res['reason'] = 'cbmc gave no verdict (rc=%s): %s' % (rc, out[-600:])
+    # vacuity: loop contract obligations present where expected
+    if res['status'] == 'pass' and ob.loop_contracts and ob.enforce:
+        want = sum(1 for cn in [ob.enforce] for o in contracts.get(cn, {}).get('loops', {}))
+        if want and res['loops'] == 0:
+            res['status'] = 'undecided'; res['reason'] = 'loop contract silently dropped (no loop_invariant_step obligations)'
+    # vacuity: cover points
+    if res['status'] == 'pass' and ob.covers:
+        rc2, out2, dt2 = sh(['cbmc', binp, '--cover', 'cover', '--no-malloc-may-fail'] + (['--unwind', str(ob.unwind)] if ob.unwind is not None else []) + (['--unwindset', ob.unwindset] if ob.unwindset else []) + (['--object-bits', str(ob.object_bits)] if ob.object_bits else []), to, log, cwd=d)
+        cov = [(m.group(1), m.group(4)) for m in COVER_RE.finditer(out2) if 'cover' in m.group(1)]
+        sat = len([c for c in cov if c[1] == 'SATISFIED'])
+        res['covers'] = (len(cov), sat)
+        res['solver_s'] += dt2
+        if len(cov) < ob.covers or sat < len(cov):
+            res['status'] = 'undecided'; res['reason'] = 'vacuity: %d of %d cover points satisfied (expected %d)' % (sat, len(cov), ob.covers)
+    res['wall_s'] = time.time() - t0
+    return res
+
+# ---------------------------------------------------------------------------------------------- properties
+def load_obligations(prop, tier):
+    obs = []
+    for f in sorted(glob.glob(os.path.join(ROOT, 'obligations', '*.py'))):
+        name = os.path.basename(f)[:-3]
+        if name.startswith('_'): continue
+        mod = importlib.import_module('obligations.' + name)
+        for ob in mod.obligations():
+            if prop in ob.props and (tier == 'thorough' or ob.quick):
+                obs.append(ob)
+    return obs
+
+def known_findings():
+    out = []
+    p = os.path.join(ROOT, 'known_findings.txt')
+    if os.path.exists(p):
+        for l in open(p):
+            l = l.strip()
+            if l.startswith('finding:'):
+                d = dict(re.findall(r'(\w+)=("[^"]*"|\S+)', l))
+                out.append({k: v.strip('"') for k, v in d.items()})
+    return out
+
+def trusted_base():
+    return ['clang 14 JSON AST is the semantics of the C++ source',
+            'cxx2c translation rules (cxx2c/*.py): classes->structs with flattened bases, references->pointers, value semantics by deep copy, exceptions->ovm_exc flag, asserts compiled out (NDEBUG as shipped)',
+            'vstd: C model of std::vector/set/pair/array/algorithms with bounds assertions (cxx2c/stdmap.py); destructors and deallocation not represented',
+            'CBMC 6.11.0 goto-cc/goto-instrument(DFCC)/cbmc with the built-in SAT back end is sound on the emitted C subset',
+            'allocation never fails (--no-malloc-may-fail); int is 32-bit, long 64-bit two\'s complement',
+            'ResourceManager property notifications are stubs driving ghost property arrays (harness side)']
+
+def check(prop, tier):
+    t0 = time.time()
+    seed = int(os.environ.get('VERIF_SEED', '0') or 0)
+    obs = load_obligations(prop, tier)
+    workdir = os.path.join(BUILD, 'run', prop)
+    os.makedirs(workdir, exist_ok=True)
+    os.makedirs(os.path.join(ROOT, 'evidence'), exist_ok=True)
+    if not obs:
+        print('no obligations registered for', prop); return 2
+    # warm the AST cache serially (one clang run per TU)
+    try:
+        for tu in sorted(set(o.tu for o in obs)): get_index(tu)
+    except Cxx2cError as e:
+        print('UNDECIDED property=%s reason=%s' % (prop, e)); write_evidence(prop, tier, seed, [], time.time() - t0, undecided=str(e)); return 2
+    with ThreadPoolExecutor(max_workers=NPROC) as ex:
+        results = list(ex.map(lambda o: run_ob(o, tier, workdir), obs))
+    kf = known_findings()
+    violations = []; undecided = []; known = []
+    for ob, r in zip(obs, results):
+        if r['status'] == 'fail':
+            for (name, desc, st) in r['fails']:
+                oname = '%s:%s' % (ob.id, name)
+                m = [k for k in kf if k.get('property') == prop and k.get('obligation') == oname]
+                if m: known.append((oname, m[0]))
+                else: violations.append((ob, r, name, desc))
+        elif r['status'] != 'pass':
+            undecided.append((ob, r))
+    for oname, k in known:
+        print('KNOWN-FINDING: property=%s obligation=%s %s' % (prop, oname, k.get('what', '')))
+    rc = 0
+    if violations:
+        rc = 1
+        os.makedirs(os.path.join(ROOT, 'replay'), exist_ok=True)
+        seen = set()
+        for ob, r, name, desc in violations:
+            if ob.id in seen: continue
+            seen.add(ob.id)
+            path = os.path.join(ROOT, 'replay', 'out', '%s-%s.json' % (prop, re.sub(r'[^A-Za-z0-9_.-]', '_', ob.id)))
+            os.makedirs(os.path.dirname(path), exist_ok=True)
+            rep = make_replay(ob, r, path, prop)
+            print('VIOLATION property=%s replay=%s obligation=%s:%s (%s)%s' % (prop, path, ob.id, name, desc, '' if rep else ' no-failing-input-found'))
+    if undecided and rc == 0:
+        rc = 2
+    for ob, r in undecided:
+        print('UNDECIDED property=%s obligation=%s reason=%s' % (prop, ob.id, r['reason'][:300].replace('\n', ' ')))
+    write_evidence(prop, tier, seed, list(zip(obs, results)), time.time() - t0, nviol=len(violations))
+    npass = len([r for r in results if r['status'] == 'pass'])
+    print('property %s tier %s: %d obligation families, %d passed, %d failed, %d undecided, %.1fs' % (
+        prop, tier, len(obs), npass, len([r for r in results if r['status'] == 'fail']), len(undecided), time.time() - t0))
+    return rc
+
+def make_replay(ob, r, path, prop):
+    """write the replay file: failed obligations + CBMC trace; returns True when a native replay confirmed"""
+    d = os.path.dirname(r['log'])
+    binp = 'b.gb' if os.path.exists(os.path.join(d, 'b.gb')) else 'a.gb'
+    cb = ['cbmc', binp] + CBMC_FLAGS + ob.flags + ['--trace', '--stop-on-fail']
+    if ob.unwind is not None: cb += ['--unwind', str(ob.unwind)]
+    if ob.unwindset: cb += ['--unwindset', ob.unwindset]
+    if ob.object_bits: cb += ['--object-bits', str(ob.object_bits)]
+    rc, out, dt = sh(cb, 600, r['log'], cwd=d)
+    trace = out[out.find('Trace for'):] if 'Trace for' in out else out[-4000:]
+    rep = dict(property=prop, obligation=ob.id, failed=[dict(name=n, description=ds) for (n, ds, st) in r.get('fails', [])],
+               functions=r['functions'], tier=ob.tier, bounds=ob.bounds, cbmc_trace=trace[-60000:], native_replay=None)
+    confirmed = False
+    try:
+        import replay.native as native
+        nr = native.replay(ob, r, trace, d)
+        rep['native_replay'] = nr
+        confirmed = bool(nr and nr.get('confirmed'))
+    except Exception as e:
+        rep['native_replay'] = {'confirmed': False, 'reason': 'no native replayer for this obligation family: ' + repr(e)[:200]}
+    json.dump(rep, open(path, 'w'), indent=1)
+    return confirmed
+
+def write_evidence(prop, tier, seed, pairs, wall, nviol=0, undecided=None):
+    obligations = sum(len(r['results']) for o, r in pairs)
+    discharged = sum(len([x for x in r['results'] if x[2] == 'SUCCESS']) for o, r in pairs if r['status'] in ('pass', 'fail'))
+    u = [(o, r) for o, r in pairs if o.tier == 'U']; b = [(o, r) for o, r in pairs if o.tier != 'U']
+    all_pass = pairs and all(r['status'] == 'pass' for o, r in pairs)
+    level = 'proof' if (all_pass and not b) else 'model_checking'
+    funcs = {}
+    for o, r in pairs:
+        for f in r['functions']: funcs[f['c']] = f
+    samples = []
+    for o, r in pairs:
+        for x in r['results']:
+            if 'postcondition' in x[0] or 'assertion' in x[0] or 'loop_invariant' in x[0]:
+                samples.append('%s:%s %s' % (o.id, x[0], x[1][:90])); break
+    cov = dict(obligations=obligations, discharged=discharged,
+               checker_cmd='goto-cc --function <harness>; goto-instrument --dfcc <harness> --enforce-contract F [--replace-call-with-contract G] --apply-loop-contracts; cbmc ' + ' '.join(CBMC_FLAGS) + ' [--unwind N --unwinding-assertions for tier B]',
+               trusted_base=trusted_base(),
+               functions_under_contract=sorted(funcs.values(), key=lambda f: f['c']),
+               obligation_families=[dict(id=o.id, tier=o.tier, status=r['status'], reason=r['reason'][:200], cbmc_properties=len(r['results']),
+                                         solver_s=round(r['solver_s'], 2), enforce=o.enforce, replaced_by_contract=o.replace,
+                                         loop_invariant_step_obligations=r['loops'], covers=list(r['covers']), bounds=o.bounds, note=o.note,
+                                         extracted_functions=r.get('n_extracted', 0), refs_emitted_as_pointers=r.get('ptr_refs', [])) for o, r in pairs],
+               proved_unbounded=sum(len(r['results']) for o, r in u if r['status'] == 'pass'),
+               bounded=sum(len(r['results']) for o, r in b if r['status'] == 'pass'),
+               backend={'cbmc-6.11.0 built-in SAT (minisat2)': obligations},
+               solver_s=round(sum(r['solver_s'] for o, r in pairs), 2),
+               vacuity=dict(cover_points=sum(r['covers'][0] for o, r in pairs), satisfied=sum(r['covers'][1] for o, r in pairs),
+                            loop_step_obligations=sum(r['loops'] for o, r in pairs)),
+               samples=samples[:12] or ['(none)'],
+               evaluations=max(1, len(pairs)), distinct_nontrivial=max(2, len([1 for o, r in pairs if r['results']])),
+               rule='one evaluation = one CBMC run (obligation family) over a symbolic pre-state; distinct = distinct harness/contract configurations with a non-empty obligation set',
+               states=max(1, obligations), transitions=max(1, len(pairs)), traces_validated_against_impl=0)
+    if undecided: cov['undecided'] = undecided
+    ev = dict(property_id=prop, tier=tier, seed=seed, level=level, coverage=cov, wall_s=round(wall, 2), violations=nviol,
+              assumptions=trusted_base() + ['tier B results hold only up to the bounds printed per obligation family',
+                                            'dynamic type of the mesh is the configured kernel class'])
+    json.dump(ev, open(os.path.join(ROOT, 'evidence', prop + '.json'), 'w'), indent=1)
+
+def setup():
+    ensure_inc()
+    for tu in TUS:
+        if os.path.exists(os.path.join(ROOT, TUS[tu])):
+            try: get_index(tu)
+            except Cxx2cError as e:
+                print('setup: AST dump of %s failed: %s' % (tu, e)); return 1
+    print('setup ok'); return 0
+
+if __name__ == '__main__':
+    if len(sys.argv) < 2: sys.exit(2)
+    if sys.argv[1] == 'setup': sys.exit(setup())
+    if sys.argv[1] == 'check':
+        prop = sys.argv[2]
+        tier = os.environ.get('VERIF_TIER') or 'quick'
+        if '--tier' in sys.argv: tier = sys.argv[sys.argv.index('--tier') + 1]
+        sys.exit(check(prop, tier))
+    if sys.argv[1] == 'replay':
+        print(open(sys.argv[2]).read()[:4000]); sys.exit(0)
     sys.exit(2)
